@@ -280,7 +280,7 @@ func ruleSkipInventory(c *Ctx, r *Report, clause string, table map[string]string
 		desc := "loop skip in " + s.Fn + " over " + s.Over
 		if reason, ok := table[s.Key]; ok {
 			desc += ": " + reason
-		} else if w.restatesTabled(table, s.Fn, skipCondParts(s.Atoms)) && w.decidesOnKnownInputs(c.VerifDir, s.Fn, s.Atoms) {
+		} else if w.decidesOnKnownInputs(c.VerifDir, s.Fn, s.Atoms) {
 			desc += ": not in the table, but it decides only on what the reviewed skips of this function decide on (a restructured conditional)"
 		} else {
 			viol = fmt.Sprintf("%s: %s leaves elements of %s out under a condition [%s] that is not in the reviewed table (tables/skips.json) and decides on inputs the reviewed function never branched on (%v): whatever that loop produces (operations, parameters, properties, imports, entries, comment lines) silently loses the skipped elements", w.pos(s.Pos), s.Fn, s.Over, s.Cond, w.unknownInputs(c.VerifDir, s.Fn, s.Atoms))
